@@ -654,8 +654,6 @@ def _run(case, want_simulate=False):
     tagp = "prior" if case["kind"] == "priors" else "ols"
     # ---- collect what the model reports
     systems = _as_list(api("get_system_matrices", model.get_system_matrices), nv, "get_system_matrices", col)
-    means = _as_list(api("get_mean", model.get_mean), nv, "get_mean", col)
-    eigs = _as_list(api("get_eigenvalues", model.get_eigenvalues), nv, "get_eigenvalues", col)
     col.check(getattr(model, "num_variants", None) == nv, "estimate:num_variants",
               lambda: f"model has {getattr(model, 'num_variants', None)} variants after estimating {nv}")
     variants = getattr(model, "_variants", None)
@@ -694,6 +692,8 @@ def _run(case, want_simulate=False):
     usable = all(A is not None and np.all(np.isfinite(A)) and np.all(np.isfinite(cov)) and (c is None or np.all(np.isfinite(c)))
                  for A, c, cov in returned)
     if usable:
+        means = _as_list(api("get_mean", model.get_mean), nv, "get_mean", col)
+        eigs = _as_list(api("get_eigenvalues", model.get_eigenvalues), nv, "get_eigenvalues", col)
         rhos = [float(np.max(np.abs(np.linalg.eigvals(_companion(A, n, p))))) for A, _, _ in returned]
         acovs = [None] * nv
         if max(rhos) <= 0.97:
@@ -731,11 +731,11 @@ def _run(case, want_simulate=False):
                 bad = ~(np.abs(got - ref) <= 1e-8 * sc)
                 if np.any(bad[:p]):
                     col.fail(f"simulate:initial_condition_changed:{cls}",
-                             f"variant {v} {YNAMES[j]}: initial-condition period {int(np.where(bad[:p])[0][0])} reads {got[:p]!r}, data {ref[:p]!r}")
+                             f"variant {v} {YNAMES[j]}: initial-condition period {int(np.where(bad[:p])[0][0])} reads {got[:p].tolist()!r}, data {ref[:p].tolist()!r}")
                 if np.any(bad[p:]):
                     t = int(np.where(bad[p:])[0][0])
                     col.fail(f"simulate:reproduces_data:{cls}",
-                             f"variant {v} {YNAMES[j]}: order {p}, first difference at span period {t}: simulated {got[p + t]!r}, data {ref[p + t]!r} "
+                             f"variant {v} {YNAMES[j]}: order {p}, first difference at span period {t}: simulated {float(got[p + t])!r}, data {float(ref[p + t])!r} "
                              f"(max abs diff {float(np.nanmax(np.abs(got[p:] - ref[p:]))):.3g})")
         labels.append("simulate_checked")
     col.done()
@@ -778,6 +778,7 @@ def _bucket_matcher(prefix, pred=None):
 FINDING_MATCHERS = {
     "no_intercept_attribute_error": _bucket_matcher("estimate:raises:AttributeError", lambda c: not c["intercept"]),
     "simulate_order_ge2": _bucket_matcher("simulate:", lambda c: c["p"] >= 2),
+    "simulate_order_ge2_exogenous": _bucket_matcher("simulate:", lambda c: c["p"] >= 2 and c["nx"] >= 1),
     "dof_counts_only_exogenous_and_intercept": _bucket_matcher("cov:dof_counts_only_exogenous_and_intercept"),
     "minnesota_scale_ignored": _bucket_matcher("prior:minnesota_scale_ignored"),
 }
